@@ -512,7 +512,7 @@ fn subject_class(src: &str) -> String {
     }
 }
 
-const PRELUDE: &str = "m = [7, \"z\"]\nkeyrec = p => if len(p) > 1 then keyrec([p[0]]) else p[0]\ngrec = x => if typeof(x) == \"list\" then grec(null) else typeof(x)\n";
+const PRELUDE: &str = "xn = [0/0]\nrn = {k: 0/0}\nxs = [1, \"a\"]\nm = [7, \"z\"]\nkeyrec = p => if len(p) > 1 then keyrec([p[0]]) else p[0]\ngrec = x => if typeof(x) == \"list\" then grec(null) else typeof(x)\n";
 
 pub fn run(ctx: &Ctx, replay: Option<&J>) -> i32 {
     if let Some(r) = replay {
@@ -578,6 +578,21 @@ pub fn run(ctx: &Ctx, replay: Option<&J>) -> i32 {
             let cyc = [RV::Num(3.0), RV::s("a"), RV::Null, RV::Num(1.0), RV::List(vec![RV::Num(0.0)])];
             ladder.push((format!("range({}) via (i => [3, \"a\", null, 1, [0]][i % 5])", n), (0..n).map(|i| cyc[i % 5].clone()).collect()));
             ladder.push((format!("range({}) via (i => {} - i)", n, n), (0..n).map(|i| RV::Num((n - i) as f64)).collect()));
+        }
+        // the same heap object several times in one list, with and without a NaN inside it (an object that
+        // holds a NaN is not .== to itself: every occurrence is a class of its own)
+        {
+            let nan = f64::NAN;
+            let xn = RV::List(vec![RV::Num(nan)]);
+            let rn = RV::Rec(vec![("k".to_string(), RV::Num(nan))]);
+            let xs = RV::List(vec![RV::Num(1.0), RV::s("a")]);
+            ladder.push(("[xn, xn]".into(), vec![xn.clone(), xn.clone()]));
+            ladder.push(("[xn, 1, xn, 1]".into(), vec![xn.clone(), RV::Num(1.0), xn.clone(), RV::Num(1.0)]));
+            ladder.push(("[rn, rn, xn]".into(), vec![rn.clone(), rn.clone(), xn.clone()]));
+            ladder.push(("[[xn], [xn], [xs], [xs]]".into(), vec![RV::List(vec![xn.clone()]), RV::List(vec![xn.clone()]), RV::List(vec![xs.clone()]), RV::List(vec![xs.clone()])]));
+            ladder.push(("concat([xn, xs], [xn, xs])".into(), vec![xn.clone(), xs.clone(), xn.clone(), xs.clone()]));
+            ladder.push(("[xs, xs, xn, [1, \"a\"]]".into(), vec![xs.clone(), xs.clone(), xn.clone(), xs.clone()]));
+            ladder.push(("[0/0, 0/0, 1]".into(), vec![RV::Num(nan), RV::Num(nan), RV::Num(1.0)]));
         }
         // depth ladder: elements that are equal down to a deep nesting level and differ below it
         let nest = |x: f64, d: usize| -> RV {
